@@ -351,6 +351,8 @@ type gcall struct {
 	id     string
 	src    *source
 	logged bool
+	// uniq: the caller's check function was made to fail in this call (the code then assumes the id free)
+	assumed bool
 }
 
 func (r *genRig) gate(op string) string { return r.mark.Name + "." + op }
